@@ -6,6 +6,7 @@ import (
 	"fmt"
 	"math/big"
 	"time"
+	"xsim/simkv"
 
 	lpb "github.com/xuperchain/xupercore/bcs/ledger/xledger/xldgpb"
 	"github.com/xuperchain/xupercore/kernel/contract"
@@ -49,6 +50,7 @@ type c11Tx struct {
 }
 
 type c11Run struct {
+	fr      int // read fault armed for the next admission (0: none)
 	rc      *RunCtx
 	w       *World
 	n       *Node
@@ -129,6 +131,7 @@ func ExecC11(plan *C11Plan, rc *RunCtx) *Violation {
 		rc.St.Steps++
 		rc.St.Ops[st.Op]++
 		var v *Violation
+		x.fr = st.FR
 		switch st.Op {
 		case "setacl":
 			_, v = x.submit("setacl", st.T, st.Rule, x.resolve(st.Sig, "setacl", st.T))
@@ -468,7 +471,18 @@ func (x *c11Run) submit(kind string, t int, rule *C11Rule, sigs [][]int) (bool, 
 	if err != nil {
 		panic(fmt.Sprintf("c11: build tx: %v", err))
 	}
+	faulted := false
+	if x.fr > 0 && kind != "newacct" && kind != "fund" && kind != "bind" {
+		n.Disk.Arm(simkv.Faults{FailRead: map[int]bool{x.fr - 1: true}})
+	}
 	err = n.Chain.SubmitTx(n.BaseCtx(), tx)
+	if x.fr > 0 {
+		faulted = n.Disk.St.FailedReads > 0
+		x.rc.St.Faults["kv-read-error"] += n.Disk.St.FailedReads
+		n.Disk.Disarm()
+		n.Disk.St = simkv.Stats{}
+		x.fr = 0
+	}
 	admitted := err == nil
 	x.logf("%s t=%d rule=%v signers=%s tx=%s admitted=%v", kind, t, rule, c11PathStr(sigs), hx(tx.Txid), admitted)
 	key := t
@@ -493,6 +507,9 @@ func (x *c11Run) submit(kind string, t int, rule *C11Rule, sigs [][]int) (bool, 
 	if decided {
 		lenientV, _ := x.expected(x.cur, kind, t, sigs, true)
 		switch {
+		case !admitted && faulted:
+			// a storage read failed during the admission: it may fail, it must not open anything
+			x.rc.St.Probes["refused-under-read-fault"]++
 		case admitted != strict && admitted == lenientV:
 			x.noteDefect("%s with signers %s: admitted=%v, reference=%v under confirmed rule %v (method rule %v); the node's verdict is what one gets when the unsigned inner path name is counted as a signer", kind, c11PathStr(sigs), admitted, strict, x.cur.Rules[t], x.cur.Method)
 		case admitted && !strict:
